@@ -494,6 +494,40 @@ impl Gen {
         self.struct_op(t);
     }
 
+    /// Biased pattern: the update channel of one client lags behind its event channels by several update
+    /// ticks (events of 2-3 ticks are queued on the client, each behind its own update message), then the held
+    /// update messages arrive together with one more event.
+    fn recipe_lagging_updates(&mut self) {
+        let c = self.r.below(self.prof.clients as usize) as u8;
+        let ev = self.r.pick(&[SEv::Ord, SEv::Ord, SEv::Trig, SEv::Unord]);
+        let rounds = self.r.range(2, 3);
+        for _ in 0..rounds {
+            // a structural change, so that the tick has an update message for the event to wait for
+            let slot = self.slot();
+            if self.live[slot as usize] && self.r.chance(50) {
+                let kind = self.kind();
+                self.steps.push(Step::Insert { slot, kind, extra: 8 });
+            } else {
+                if self.live[slot as usize] {
+                    self.steps.push(Step::Despawn { slot });
+                }
+                self.steps.push(Step::Spawn { slot, kinds: vec![Kind::A], marker: true });
+                self.live[slot as usize] = true;
+            }
+            let target = if ev == SEv::Ord && self.r.chance(30) { Some(slot) } else { None };
+            self.steps.push(Step::Emit { ev, mode: Mode::Broadcast, target });
+            self.steps.push(Step::ServerFrame { tick: true, dt_ms: 16 });
+            self.steps.push(Step::DeliverAll { dir: Dir::S2C, client: c, chan: Chan::SEv(ev) });
+            self.steps.push(Step::ClientFrame { client: c, dt_ms: 16 });
+        }
+        self.steps.push(Step::Emit { ev, mode: Mode::Broadcast, target: None });
+        self.steps.push(Step::ServerFrame { tick: self.r.chance(70), dt_ms: 16 });
+        self.steps.push(Step::DeliverAll { dir: Dir::S2C, client: c, chan: Chan::Updates });
+        self.steps.push(Step::DeliverAll { dir: Dir::S2C, client: c, chan: Chan::SEv(ev) });
+        self.steps.push(Step::ClientFrame { client: c, dt_ms: 16 });
+        self.steps.push(Step::ClientFrame { client: c, dt_ms: 16 });
+    }
+
     /// Connection life-cycle events with the given per-call probabilities (%): a client session ending
     /// (either end first, the other noticing later) and a server stop/start with clients that keep
     /// running and receiving for a while.
@@ -822,6 +856,9 @@ impl Gen {
             }
             if self.focus == Focus::Packing && self.prof.app.sync_related && self.r.chance(10) {
                 self.recipe_join_groups();
+            }
+            if self.focus == Focus::Events && self.r.chance(6) {
+                self.recipe_lagging_updates();
             }
             if self.focus == Focus::PreSpawn && self.r.chance(8) {
                 self.recipe_reference_then_map();
